@@ -139,6 +139,9 @@ def run(cx):
     # nothing after the end: a connection that left the address map is terminal, so timers that still hold it are no-ops
     from props.shared import removal_implies_fin
     removal_implies_fin(cx, "C08.g")
+    # Connect is emitted once per connection: only together with the promotion, i.e. under the nonce test
+    from props.C07 import inst_promotion_guard
+    inst_promotion_guard(cx, "C08.h")
 
 
 SELFTEST = [
